@@ -511,3 +511,70 @@ func (g *Graph) MustPass(from ast.Node, pass func(ast.Node) bool, edges EdgeFilt
 	p := g.Search(Query{From: from, ToExit: true, Avoid: pass, Edges: edges})
 	return !p.Found, p
 }
+
+// IsCondAtom reports whether atom a is the branch condition ending its block.
+func (g *Graph) IsCondAtom(a ast.Node) bool {
+	p, ok := g.loc[a]
+	if !ok {
+		return false
+	}
+	b := g.CFG.Blocks[p.Block]
+	if len(b.Succs) != 2 || len(b.Nodes) == 0 {
+		return false
+	}
+	return b.Nodes[len(b.Nodes)-1] == a
+}
+
+// GuardedBy reports whether node n executes only when branch condition cond
+// (a block-ending condition atom) evaluated to wantTrue: cond dominates n and n
+// is unreachable from cond through the other branch without re-evaluating cond.
+func (g *Graph) GuardedBy(n, cond ast.Node, wantTrue bool) bool {
+	if !g.IsCondAtom(cond) || !g.Dominates(cond, n) {
+		return false
+	}
+	pc := g.loc[cond]
+	other := 0
+	if wantTrue {
+		other = 1
+	}
+	pn, ok := g.PointOf(n)
+	if !ok {
+		return false
+	}
+	target := g.Atoms[pn.Block][pn.Idx]
+	p := g.Search(Query{
+		From:   cond,
+		Target: func(a ast.Node) bool { return a == target },
+		Avoid:  func(a ast.Node) bool { return a == cond },
+		Edges: func(from *cfg.Block, i int) bool {
+			if int(from.Index) == pc.Block {
+				return i == other
+			}
+			return true
+		},
+	})
+	return !p.Found
+}
+
+// CondAtoms returns all block-ending condition atoms satisfying pred.
+func (g *Graph) CondAtoms(pred func(e ast.Expr) bool) []ast.Node {
+	var out []ast.Node
+	for _, b := range g.CFG.Blocks {
+		if !b.Live || len(b.Succs) != 2 || len(b.Nodes) == 0 {
+			continue
+		}
+		if e, ok := b.Nodes[len(b.Nodes)-1].(ast.Expr); ok && pred(e) {
+			out = append(out, e)
+		}
+	}
+	return out
+}
+
+// AtomOf returns the atom that contains node n.
+func (g *Graph) AtomOf(n ast.Node) ast.Node {
+	p, ok := g.PointOf(n)
+	if !ok {
+		return nil
+	}
+	return g.Atoms[p.Block][p.Idx]
+}
